@@ -106,6 +106,29 @@ def run(pid, tier):
                 how = rng.randrange(0, 4)
                 t = t[:i] + (rng.choice("[]{}()#:*,\"'\\\n\t\f\r x0-<>") if how == 0 else "" if how == 1 else t[i:i + rng.randint(1, 30)] * 2 if how == 2 else chr(rng.randrange(1, 0x2fff))) + t[i + (1 if how in (1, 3) else 0):]
             aux["A%d" % k] = t[:rng.randrange(1, len(t) + 1)] if rng.random() < 0.2 else t
+        # ... and texts that are NOT JSON (Python's json module is the judge of that): a model, the API envelope around it, an array around
+        # it, each with something glued in front of or behind it, cut short, or written twice - "a syntax error in the input is always
+        # reported through the returned error" for the JSON entry points
+        import json as _json
+        jsonreject = set()
+        jmodels = []
+        for d in sorted(os.listdir(os.path.join(REPO, "tests/data/transformer")))[:8]:
+            f = os.path.join(REPO, "tests/data/transformer", d, "authorization-model.json")
+            if os.path.exists(f):
+                jmodels.append(_json.dumps(_json.load(open(f))))
+        jn = 0
+        for m in jmodels[:4] if tier == "quick" else jmodels:
+            for base in (m, '{"authorization_model":%s}' % m, '{"authorization_model": %s, "id": "x"}' % m, "[%s]" % m, '{"model":%s}' % m):
+                cands = [base + tail for tail in (" trailing", "}", "]", ",", "{", '"', " and some more", "\n{", base, "\n" + m)]
+                cands += [head + base for head in ("x", "}", ",", '"')]
+                cands += [base[:cut] for cut in range(1, len(base), max(7, len(base) // 12))]
+                for t in cands:
+                    try:
+                        _json.loads(t)
+                    except ValueError:
+                        aux["J%d" % jn] = t
+                        jsonreject.add("J%d" % jn)
+                        jn += 1
         inp, out = sc.path("c08a.in.ndjson"), sc.path("c08a.out.ndjson")
         write_ndjson(inp, [{"id": k, "text": v} for k, v in list(texts.items()) + list(aux.items())])
         run_harness(binary, ["c08-text", "-in", inp, "-out", out])
@@ -126,6 +149,12 @@ def run(pid, tier):
                     if o["results"][entry] == "ok":
                         chk.violation("%s returns a result and no error for a document with a character the lexer has no rule for (%s)" % (entry, o["id"]),
                                       {"entry": entry, "text": alltexts[o["id"]], "result": "ok", "expected": "error", "model_derived": True})
+            if o["id"] in jsonreject:
+                chk.add("texts_that_are_not_json")
+                for entry in ("TransformJSONStringToDSL", "LoadJSONStringToProto"):
+                    if o["results"][entry] == "ok":
+                        chk.violation("%s returns a result and no error for a text that is not JSON (%s)" % (entry, o["id"]),
+                                      {"entry": entry, "text": alltexts[o["id"]], "result": "ok", "expected": "error", "model_derived": False})
             if o["ms"] > 2000:
                 slow.append((o["id"], o["ms"], o["len"]))
         for s in slow[:3]:
